@@ -1316,3 +1316,42 @@ model("CounterVal.items")(lambda I, c: list(c.pairs))
 model("CounterVal.keys")(lambda I, c: [k for k, _ in c.pairs])
 model("CounterVal.values")(lambda I, c: [v for _, v in c.pairs])
 model("CounterVal.most_common")(lambda I, c, n=None: sorted(c.pairs, key=lambda kv: -kv[1])[:n])
+
+
+class DDict(dict):
+    """collections.defaultdict"""
+
+    def __init__(self, factory):
+        super().__init__()
+        self.factory = factory
+
+
+@model("collections.defaultdict")
+def _defaultdict(I, factory=None):
+    return DDict(factory)
+
+
+for _n in ("get", "items", "keys", "values", "update", "pop", "setdefault", "copy"):
+    MODELS["DDict." + _n] = MODELS["dict." + _n]
+
+
+class _CStack:
+    pass
+
+
+MODELS["numpy.c_"] = _CStack()
+
+
+def cstack(I, parts):
+    arrs = [as_arr(x) for x in parts]
+    cols = []
+    for a in arrs:
+        if a.ndim == 1:
+            cols.append(a.data.reshape(-1, 1))
+        else:
+            cols.append(a.data)
+    kind = "f" if any(a.kind == "f" for a in arrs) else arrs[0].kind
+    try:
+        return NDArr(np.hstack(cols), kind)
+    except ValueError:
+        raise PyRaise("ValueError", "all the input array dimensions except for the concatenation axis must match exactly")
